@@ -51,6 +51,11 @@ def scenarios(tier, rng):
     Hf, Nf, seedf, boxf = 5, 1200, rng.below(1000), boxes[1]
     for B, mode, ex in [(50, 0, 0), (3, 0, 0), (50, 1, 0), (10000000, 0, 0), (17, 1, 1), (50, 0, 1)]:
         sc.append(dict(H=Hf, B=B, mode=mode, ex=ex, N=Nf, seed=seedf, box=boxf, charge=1, fam="g"))
+    # linearity in the charges (C04: "unchanged to rounding by ... splitting the charges linearly"): the same positions with charge
+    # sets A, B and A+B; the potentials (checksum) of A+B must be the sum of those of A and B
+    Hl, Nl, seedl = 5, 1000, rng.below(1000)
+    for cm in (2, 3, 4):
+        sc.append(dict(H=Hl, B=40, mode=0, ex=0, N=Nl, seed=seedl, box=boxes[1], charge=cm, fam="lin"))
     # special positions (C04: "points on cell faces, cell centres and cell axes"): place = bitmask understood by h_num
     # (1 polar axis, 2 x axis, 4 y axis, 8 exact cell centre, 16 cell face, 32 cell edge); dyadic and non-dyadic boxes
     for H, place, box in [(4, 6, boxes[0]), (4, 48, boxes[0]), (3, 1, boxes[0]), (4, 8, boxes[0]), (4, 48, boxes[1]), (5, 54, boxes[2])]:
@@ -109,6 +114,7 @@ def run_num(pid, kernel, kname, tier, seed):
             fp, ff = FLOOR[real]
             bp, bf = max(bp, FARFLOOR[real][0]), max(bf, FARFLOOR[real][1])
             fam = []
+            lin = {}
             for s, line in zip(sc, out):
                 rep.evaluations += 1
                 case = "%s order=%d %s: %s" % (kname, param, real, cmdline(s))
@@ -133,7 +139,14 @@ def run_num(pid, kernel, kname, tier, seed):
                     rep.violation(dict(kind="oracle", clause="accuracy", has_input=True),
                                   "normalised error (potential %.3e, force %.3e) above the order-%d band (%.1e, %.1e) on %s" % (ep, ef, param, lim_p, lim_f, case), dict(case=case, impl=line))
                 results[(param, real, cmdline(s))] = (ep, ef)
-                if s["fam"]: fam.append((case, float(r["cpot"])))
+                if s["fam"] == "g": fam.append((case, float(r["cpot"])))
+                if s["fam"] == "lin": lin[s["charge"]] = (case, float(r["cpot"]))
+            if len(lin) == 3:
+                a, b, ab = lin[2][1], lin[3][1], lin[4][1]
+                scale = abs(a) + abs(b) + abs(ab) + 1e-300
+                if abs(ab - (a + b)) > (1e-10 if real == "double" else 3e-4) * scale:
+                    rep.violation(dict(kind="oracle", clause="linearity", has_input=True),
+                                  "potentials are not linear in the charges: checksum(A+B) = %.17g, checksum(A) + checksum(B) = %.17g on %s" % (ab, a + b, lin[4][0]), dict(case=lin[4][0]))
             # invariance to grouping / executor (to rounding)
             if fam:
                 ref = fam[0][1]
